@@ -3,6 +3,7 @@ C05 — Loading and re-writing a RapidPro export is lossless.
 -/
 import Rpft.Lemmas.Reorder
 import Rpft.DocumentWitness
+import Rpft.DocumentUi
 import Rpft.Gen.Tables
 import Rpft.Canon
 set_option linter.unusedSimpArgs false
@@ -260,6 +261,27 @@ NOT lossless (kernel-computed; replayed on the real code by the harness). -/
 theorem valid_clauses_needed :
     (∀ d ∈ [docOutsideUnlistedGroup, docOutsideEmptyAttachment, docOutsideZeroTimeout, docOutsideHardExit],
       validB d = false ∧ OrderedCats d ∧ ExitsByCats d ∧ UntypedFields d ∧ PlainGroups d ∧ lossless d = false) := by
+  decide
+
+/-- **`_ui` entries of splits name the whole operand path.**  `render_ui` re-derives `type` and
+`config` of a `_ui.nodes` entry from the node; for a split by contact field / flow result the
+operand shown is everything behind the namespace, with one, two or three dotted segments alike
+(`@results.quiz.category` is the category of the result `quiz`, not the result `quiz`), and a
+router that waits is a `wait_for_response` whatever its operand.  Kernel-computed instances of
+`switchUi`; the function itself is tied to the code by the differential run (every `_ui` entry
+of the model's round trip against the real one). -/
+theorem ui_operand_whole_path :
+    (∀ p ∈ ["quiz", "quiz.category", "a.b.c"].map String.toList,
+      switchUi false ("@results.".toList ++ p) = ⟨"split_by_run_result".toList, .cases (some (p, "result".toList, p))⟩ ∧
+      switchUi false ("@fields.".toList ++ p) = ⟨"split_by_contact_field".toList, .cases (some (p, "field".toList, p))⟩ ∧
+      switchUi false ("@contact.".toList ++ p) = ⟨"split_by_contact_field".toList, .cases (some (p, "field".toList, p))⟩ ∧
+      switchUi true ("@results.".toList ++ p) = ⟨"wait_for_response".toList, .cases none⟩) ∧
+    (∀ p ∈ ["name", "language", "channel"].map String.toList,
+      switchUi false ("@contact.".toList ++ p) = ⟨"split_by_contact_field".toList, .cases (some (p, "property".toList, capitalize p))⟩ ∧
+      switchUi false ("@contact.".toList ++ p ++ ".x".toList) =
+        ⟨"split_by_contact_field".toList, .cases (some (p ++ ".x".toList, "field".toList, p ++ ".x".toList))⟩) ∧
+    (∀ o ∈ ["@results", "@fields", "@contact", "@result.x.y", "@contacts.a.b", "@input.text"].map String.toList,
+      switchUi false o = ⟨"split_by_expression".toList, .cases none⟩) := by
   decide
 
 end Rpft.Props.C05
